@@ -18,7 +18,10 @@ THEOREMS_TIED = ["C17_sql_gc_exact", "C17_sql_gc_keeps_unexpiring", "C17_sql_gc_
 
 T = 1700000001
 EXPS = [str(T - 1), str(T), str(T + 1), "1", "999", "1699999999", "17000000000", "99999999999", "1700abc", "1600abc", "abc", "",
-        "0", "01700000000", " 1700000000", "1700000000.5", "-5"]
+        "0", "01700000000", " 1700000000", "1700000000.5", "-5",
+        # not timestamps, although Python's int() would take them: sign, blanks, digit separators, non-ASCII digits
+        "+1600000000", " 1600000000", "1600000000 ", "1_500_000_000", "\uff11\uff16\uff10\uff10\uff10\uff10\uff10\uff10\uff10\uff10",
+        "\u0661\u0666\u0660\u0660\u0660\u0660\u0660\u0660\u0660\u0660", "1600000000\n"]
 KINDS = [1, 1, 1, 7, 19999, 20000, 20001, 29999, 30000, 10002, 5, 0, 4, 6, 40000]
 AUTH = gen.AUTHORS[2:4]
 
@@ -57,10 +60,26 @@ def gen_store(rng):
     return evs
 
 
-def classify(ev, backend):
+def string_rule(ev, backend, now):
+    """the recorded finding, exactly: expirations are compared as byte strings with str(now) (LMDB: a range walk of the tag
+    index from the value "0"; SQL: tags.value < 'now')"""
+    hi = str(now).encode()
+    for v in expirations(ev):
+        if not isinstance(v, str):
+            continue
+        b = v.encode("utf-8", "surrogatepass")
+        if b < hi and (backend == "sql" or b >= b"0"):
+            return True
+    return False
+
+
+def classify(ev, backend, was_removed=None, now=None):
+    """the open class covers an outcome only when it is the one the string comparison produces; any other wrong outcome for an
+    odd expiration value is a different violation"""
     vals = expirations(ev)
     if any(not (well_formed_ts(v) and len(v) == len(str(T))) for v in vals):
-        return "gc-expiration-string-compare-" + backend
+        if was_removed is None or was_removed == ((20000 <= ev["kind"] < 30000) or string_rule(ev, backend, now)):
+            return "gc-expiration-string-compare-" + backend
     return None
 
 
@@ -119,9 +138,9 @@ def run_case(report, drv, store, evs, now, tag):
         if i in removed and not may_collect(ev, now):
             report.property_failure(
                 "%s: GC at %d removed %s (kind %d, expiration %r) which is neither ephemeral nor expired"
-                % (store.backend, now, i[:8], ev["kind"], expirations(ev)), payload, classify(ev, store.backend))
+                % (store.backend, now, i[:8], ev["kind"], expirations(ev)), payload, classify(ev, store.backend, True, now))
         if i not in removed and should_collect(ev, now):
-            cls = classify(ev, store.backend)
+            cls = classify(ev, store.backend, False, now)
             report.property_failure(
                 "%s: GC at %d kept %s (kind %d, expiration %r) which is ephemeral or expired"
                 % (store.backend, now, i[:8], ev["kind"], expirations(ev)), payload, cls)
